@@ -15,9 +15,9 @@ From OvldV Require Import Model.Sx Model.Graph Model.ClassDict.
      (5 n l)                n.unregister(fn)
      (6 n)                  first call of n
    outcome: one entry per step:
-     (outcome (node...) (exposed...))  with outcome 0 Done | 1 Locked | 2 Invalid | 3 Stuck,
-     node = (compiled locked fresh table) with table = ((sig tiebreak label)...) or 9 when the model has no answer,
-     exposed = the used nodes the step leaves out of date (classifier of KF-43; listed only when the step was performed) *)
+     (outcome (node...))  with outcome 0 Done | 1 Locked | 2 Invalid | 3 Stuck,
+     node = (compiled locked fresh table) with table = ((sig tiebreak label)...) or 9 when the model has no answer
+     (fresh = the observable is what a rebuild would give now; always 1 by C16_always_fresh) *)
 Definition op_of (s : sx) : op :=
   let n i := sx_nat (sx_arg i s) in
   let rest k := map sx_nat (skipn k (sx_args s)) in
@@ -49,8 +49,7 @@ Fixpoint run_steps (g : graph) (ops : list op) : list sx :=
   | [] => []
   | o :: r =>
       let (g', out) := step g o in
-      L [of_outcome out; of_graph g';
-         of_nats (if is_done out then exposed g o else [])] :: run_steps g' r
+      L [of_outcome out; of_graph g'] :: run_steps g' r
   end.
 
 Definition run_graph (s : sx) : sx := L (run_steps [] (map op_of (sx_list (sx_arg 0 s)))).
